@@ -234,6 +234,16 @@ class FlushBufferContract(Contract):
                 if not raised and "IoFault" in c.post.g:
                     out.append(("normal-return-means-no-fault", z3.Implies(z3.Not(z3.Select(c.pre.g["IoFault"], f)), nofault)))
                 cov = c.pre.ghost.get("covers", {}).get(f.get_id())
+                if cov is not None and "NodeBuf" in c.pre.g:
+                    # an UNFORCED buffer-wide flush (exit of the backend-wide context) flushes the files whose
+                    # registered collection is no longer buffered: written if changed, entry dropped
+                    bctx = as_int(c.pre.rec(c.pre.statics[(cn, "_buffer_context")]).fields["_count"])
+                    unbuf = z3.And(z3.Select(c.pre.g["NodeBuf"], cov[2]) <= 0, bctx <= 0,
+                                   cover_in(bp.reg, cov[1], cov[2]), z3.Select(c.pre.g["NodeFile"], cov[2]) == f)
+                    out.append(("C05:unbuffered-collections-are-flushed",
+                                z3.Implies(P(unbuf, had, changed, z3.Not(conflict)), pyeq(c.post.sel("Res", f), L))))
+                    out.append(("C07:unbuffered-entries-dropped",
+                                z3.Implies(P(unbuf, z3.Not(forced(c))), z3.Not(bq.has(f)))))
                 if cov is not None and c.mode == "prove":
                     # Inv.cover re-established: a file that still has an entry still has a registered collection
                     k_c, a_c = cov[1], cov[2]
@@ -658,8 +668,13 @@ class FlushBufferLoop(LoopSpec):
                           z3.Implies(z3.And(had, changed, z3.Not(conflict), z3.Not(fault)), pyeq(st.sel("Res", f0), Lf)))
             # (after an injected I/O fault at f0 nothing is claimed about f0 except that the fault is reported)
             out.append(("f0:untouched-or-done", z3.Or(untouched, done, fault)))
-            out.append(("f0:cover-still-registered", z3.Implies(z3.And(forced, had, z3.Not(done), z3.Not(fault)),
-                                                                cover_in(R, k_c, a_c))))
+            # the witness collection of Inv.cover is flushed when the flush is forced or when it is no longer buffered
+            bctx = as_int(st.rec(st.statics[(cn, "_buffer_context")]).fields["_count"])
+            cover_unbuffered = z3.And(z3.Select(st.g["NodeBuf"], a_c) <= 0, bctx <= 0)
+            out.append(("f0:cover-still-registered", z3.Implies(z3.And(z3.Or(forced, cover_unbuffered), had, z3.Not(done),
+                                                                       z3.Not(fault)), cover_in(R, k_c, a_c))))
+            # C07: the error names EXACTLY the conflicting files (and those hit by an I/O fault)
+            out.append(("f0:issues-exact", z3.Implies(bs.dict_has(iss, f0), z3.Or(z3.And(had, changed, conflict), fault))))
             out.append(("f0:cover-retained", z3.Implies(z3.And(bS.has(f0), z3.Not(cover_in(R, k_c, a_c)), z3.Not(fault)),
                                                         cover_in(rem, k_c, a_c))))
             out.append(("f0:fault-recorded", z3.Implies(fault, bs.dict_has(iss, f0))))
